@@ -93,17 +93,6 @@ def read_skeletons():
 EXPECTED_UNKNOWN = {}
 
 
-KF_INJECT = "inject-shares-thread-999"
-
-
-def literal_tids():
-    import json
-    import re
-    src = open(GEN).read() if os.path.exists(GEN) else ""
-    m = re.search(r"def literalTids : List String := \[(.*)\]", src)
-    return [json.loads(x) for x in re.findall(r'"(?:[^"\\\\]|\\\\.)*"', m.group(1))] if m else []
-
-
 def unknown_facts():
     import re
     src = open(GEN).read() if os.path.exists(GEN) else ""
@@ -150,10 +139,8 @@ def correspondence(ctx, binp, tier, budget):
         _, tr = split_go(gores.get(i, "MISSING-RESULT"))
         lines[i] = cases[i] + "\t" + tr
     model = checklib.run_driver(ctx, "C12", lines, shards=SPEC["shards"])
-    bad, validated, events, nontrivial, exact, kf = [], 0, 0, set(), 0, []
-    # mode J (concurrent debugger injections) shows the known finding as long as the tree evaluates
-    # injections with a literal thread id; spec = the model's result (mutual exclusion, counters, end state)
-    inject_known = bool(literal_tids())
+    bad, validated, events, nontrivial, exact = [], 0, 0, set(), 0
+
     for i in sorted(cases):
         g, _ = split_go(gores.get(i, "MISSING-RESULT"))
         m, attrs = model.get(i, ("MISSING-MODEL-RESULT", {}))
@@ -163,11 +150,9 @@ def correspondence(ctx, binp, tier, budget):
         if g == m and attrs.get("replay") == "ok":
             validated += 1
             exact += attrs.get("exact") == "1"
-        elif inject_known and cases[i].startswith("J "):
-            kf.append(i)
         else:
             bad.append(i)
-    return dict(kf=kf, cases=cases, gores=gores, model=model, bad=bad, validated=validated, events=events, exact=exact,
+    return dict(cases=cases, gores=gores, model=model, bad=bad, validated=validated, events=events, exact=exact,
                 nontrivial=nontrivial, stats=stats, infos=infos)
 
 
@@ -236,18 +221,6 @@ def run(ctx):
                        "model": r["model"].get(i, ("", {}))[0],
                        "trace_replay": r["model"].get(i, ("", {}))[1].get("replay")} for i in idx]
     report(ctx, r)
-    if r["kf"]:
-        known, _ = checklib.load_known()
-        i = r["kf"][0]
-        g0 = split_go(r["gores"].get(i, ""))[0]
-        if ("C12", KF_INJECT) in known:
-            checklib.known_finding(ctx, f"id={KF_INJECT} {known[('C12', KF_INJECT)]} ({len(r['kf'])} cases, e.g. {r['cases'][i]!r}: "
-                                        f"go={g0[:80]!r} spec={r['model'].get(i, ('', {}))[0][:80]!r})")
-        else:
-            rp = checklib.write_replay(ctx, "input", {"payload": r["cases"][i]}, {"result": r["model"].get(i, ("", {}))[0]},
-                                       {"result": g0}, "./check C12 --replay <this file>", tag="kf")
-            checklib.violation(ctx, rp, f"unlisted finding class {KF_INJECT}")
-    cov["known_finding_cases"] = len(r["kf"])
     sk = read_skeletons()
     changed = [n for n, want in (("skeleton", SKELETON), ("idSkeleton", ID_SKELETON)) if sk.get(n) != want]
     cov["skeleton_changed"] = {n: sk.get(n) for n in changed} if changed else False
